@@ -606,6 +606,31 @@ def _mgm2(ctx, repo):
                     seen[st] = good
                     ctx.check(good, "R-STATE", f"MGM2._enter_state: state {st!r} replays through {hn}", es, calls[0] if calls else l,
                               "a postponed message must be handed to the handler of its own type")
+        if not seen:
+            # table dispatch: `getattr(self, TABLE[state])(*msg)` (or TABLE.get(state)) with a module-level dict state -> handler name
+            mod_ = es.module
+            tables = {}
+            for st_ in mod_.tree.body:
+                if isinstance(st_, ast.Assign) and len(st_.targets) == 1 and isinstance(st_.targets[0], ast.Name) and isinstance(st_.value, ast.Dict) \
+                        and all(isinstance(k_, ast.Constant) and isinstance(v_, ast.Constant) for k_, v_ in zip(st_.value.keys, st_.value.values)):
+                    tables[st_.targets[0].id] = {k_.value: v_.value for k_, v_ in zip(st_.value.keys, st_.value.values)}
+            disp = [c for c in ast.walk(l) if isinstance(c, ast.Call) and isinstance(c.func, ast.Call) and call_name(c.func) == "getattr" and len(c.func.args) == 2 and norm(c.func.args[0]) == "self"
+                    and [norm(a) for a in c.args] == [f"*{mv}"]]
+            if len(disp) == 1:
+                key = disp[0].func.args[1]
+                if isinstance(key, ast.Name):
+                    kd = [a.value for a in ast.walk(l) if isinstance(a, ast.Assign) and norm(a.targets[0]) == key.id]
+                    key = kd[0] if len(kd) == 1 else key
+                tname = None
+                if isinstance(key, ast.Subscript) and isinstance(key.value, ast.Name) and norm(key.slice) == sp:
+                    tname = key.value.id
+                elif isinstance(key, ast.Call) and isinstance(key.func, ast.Attribute) and key.func.attr == "get" and isinstance(key.func.value, ast.Name) and key.args and norm(key.args[0]) == sp:
+                    tname = key.func.value.id
+                if tname in tables:
+                    for st, hn in M2_STATES.items():
+                        good = tables[tname].get(st) == hn
+                        seen[st] = good
+                        ctx.check(good, "R-STATE", f"MGM2._enter_state: state {st!r} replays through {hn}", es, disp[0], f"the dispatch table {tname} maps {st!r} to {tables[tname].get(st)!r}")
         for st in M2_STATES:
             if st not in seen:
                 ctx.bad("R-STATE", f"MGM2._enter_state: state {st!r} has a replay branch", es, l, f"postponed {st!r} messages would never be processed")
